@@ -371,6 +371,11 @@ Definition eml_attachment (T : C07.Model.tables) (a : mp_attachment) : str * str
   let mt := or_default (mp_ctype a) OCTET_STREAM in
   (fn, mt, C03.Lib.nonempty mt && has_key mt (C07.Model.mime_map T)).
 
+(* the attachment loop of _read_eml_format: ONE EmailAttachment per mailparser attachment record, in order, whatever the
+   payload is (zero bytes included) *)
+Definition eml_attachments (T : C07.Model.tables) (recs : list mp_attachment) : list (str * str * bool) :=
+  map (eml_attachment T) recs.
+
 (* cc / bcc / reply_to: `if t and len(t) > 1 and t[1]`; to: unfiltered *)
 Definition eml_filter (l : list (str * str)) : list (str * str) := filter (fun t => C03.Lib.nonempty (snd t)) l.
 (* text_plain / text_html: "\n".join(list) *)
